@@ -595,6 +595,10 @@ func (x *c12) fixture() {
 				fx.fixtureSpawnCollect(fn, fname, tasks)
 				continue
 			}
+			if strings.Contains(fn.Name(), "Once") {
+				fx.fixtureOnce(fn, fname, FieldID{fp.ModPath + ".mgr", "started"})
+				continue
+			}
 			if len(fn.Params) == 2 {
 				fx.flagUnderLock(fn, "flag", flag, items, lock, nil, "")
 			}
@@ -611,6 +615,27 @@ func c12GoSites(fn *ssa.Function) []*ssa.Go {
 		}
 	})
 	return out
+}
+
+// fixtureOnce: a return that reports success (nil) must lie on a path on which
+// the function's own test-and-set of `flag` succeeded.
+func (x *c12) fixtureOnce(fn *ssa.Function, fname string, flag FieldID) {
+	construct := fname + " once"
+	x.seen("once", construct, x.p.Pos(fn.Pos()))
+	cl := &xClient{}
+	cl.OnBranch = func(st *xState, ifi *ssa.If, cond xVal, truth bool) bool {
+		if x.tasWon(cond, truth, flag) {
+			st.Client |= 1
+		}
+		return true
+	}
+	cl.OnReturn = func(st *xState, ret *ssa.Return, res []xVal) {
+		if st.Client&1 == 0 && len(res) == 1 && res[0].K == xNil {
+			x.bad("once", construct, x.pos(ret), "returns nil without having taken the flag")
+		}
+	}
+	ex := newXplorer(x.p, x.ssaPkg, cl)
+	ex.Explore(fn, nil, 0)
 }
 
 // fixtureSpawnCollect: the generic spawn/collect rule on a fixture function
